@@ -200,6 +200,7 @@ class FileRun:
         self.saves = 0
         self.unlocked_ops = []
         self.timeout_leak = []
+        self.livelock = []
         self.max_occ = 0
         self.errors = {}
         self.sweeper_obj = sessions.FileSession(id=None, storage_path=self.tmp, timeout=1, clean_freq=0, debug=DEBUG)
@@ -326,7 +327,10 @@ class FileRun:
             self.sched.step(name, force=True)             # sleep, whatever else the loop does
             guard += 1
             if guard > 8:
-                raise common.HarnessError('polling loop of %s does not come back to an attempt' % name)
+                # the code under test does something else than poll: an observation, not a harness error
+                if str(i) not in self.livelock:
+                    self.livelock.append(str(i))
+                break
         if st.status == 'done' and st.exc is not None and name not in self.errors:
             self.errors[name] = type(st.exc).__name__
         return True
@@ -410,39 +414,40 @@ class FileRun:
                 for i in range(self.n)]
 
     def finish(self, snaps=None):
+        """Let the sweep end its pass and every request that can still run finish.  An actor that keeps
+        taking turns without ever finishing (e.g. polling for ever a lock it leaked itself) is recorded
+        as a livelock of the code under test — an observation for the oracle, not a harness error."""
         extra = []
-        guard = 0
         sw = self.sched.threads['S']
-        while sw.status != 'done' and sw.pending[0] != 'sweep.start' and self.sched.enabled('S'):
-            lab = self.step('S')
-            extra.append('S')
+
+        def sweeping():
+            return sw.status != 'done' and sw.pending[0] != 'sweep.start' and self.sched.enabled('S')
+
+        def do(tok):
+            lab = self.step(tok)
+            extra.append(tok)
             if snaps is not None:
                 snaps.append((self.observation(), lab))
-            guard += 1
-            if guard > 40:
-                raise common.HarnessError('sweep does not terminate')
+
+        def drive(tok, cond, limit):
+            n = 0
+            while cond():
+                if n >= limit:
+                    if tok not in self.livelock:
+                        self.livelock.append(tok)
+                    return False
+                do(tok)
+                n += 1
+            return n > 0
+        drive('S', sweeping, 60)
         while True:
             progressed = False
             for i in range(self.n):
-                while self.sched.enabled('r%d' % i):
-                    lab = self.step(str(i))
-                    extra.append(str(i))
-                    if snaps is not None:
-                        snaps.append((self.observation(), lab))
-                    progressed = True
-                    guard += 1
-                    if guard > 400:
-                        raise common.HarnessError('request threads do not terminate')
+                if str(i) not in self.livelock:
+                    progressed |= bool(drive(str(i), lambda i=i: self.sched.enabled('r%d' % i), 120))
             # a sweep that was waiting for the lock can go on now
-            while sw.status != 'done' and sw.pending[0] != 'sweep.start' and self.sched.enabled('S'):
-                lab = self.step('S')
-                extra.append('S')
-                if snaps is not None:
-                    snaps.append((self.observation(), lab))
-                progressed = True
-                guard += 1
-                if guard > 400:
-                    raise common.HarnessError('sweep does not terminate')
+            if 'S' not in self.livelock:
+                progressed |= bool(drive('S', sweeping, 60))
             if not progressed:
                 break
         return extra
@@ -453,7 +458,7 @@ class FileRun:
         h = self.holders.get(self.lockpath)
         return {'max_occ': self.max_occ, 'lost': self.lost, 'lost_why': self.lost_why, 'saves': self.saves,
                 'unlocked_ops': list(self.unlocked_ops), 'errors': dict(self.errors),
-                'timeout_leak': list(self.timeout_leak),
+                'timeout_leak': list(self.timeout_leak), 'livelock': list(self.livelock),
                 'held_by': [h[0]] if h else [],
                 'blocked': [r for r in reqs if not sched.done(r) and not sched.enabled(r)],
                 'unfinished': [r for r in reqs if not sched.done(r)],
